@@ -1,8 +1,76 @@
-(** C08 — obligations over the facts regenerated from /repo (Gen/C08Facts.v). *)
+(** C08 — obligations over the facts regenerated from /repo (Gen/C08Facts.v) on every run. *)
 From Coq Require Import List ZArith Bool String.
 Import ListNotations.
 Require Import Nib.C08.Model Nib.C08.Spec Nib.C08.Property.
 Require Import Nib.Gen.C08Facts.
+Local Open Scope Z_scope.
 
+(** every ABI method is dispatched; every handler's context guard comes first; every method that is
+    not an ABI view, and every method whose body can write, is behind assertNotReadonlyTx; view
+    methods have read-only bodies; OnRunStart precedes each switch; gas used by the body is
+    charged; selectors are pairwise distinct *)
 Theorem C08_current_guards_ok : guards_ok current_facts = true.
 Proof. vm_compute. reflexivity. Qed.
+
+(** requiredGas has its length guard, bankMsgSend validates denom and amount before sdk.NewCoin,
+    sendToEvm / getErc20Address keep NUL characters away from the collections index, OnRunStart
+    installs the limited local gas meter, all three Run methods defer HandleOutOfGasPanic *)
+Theorem C08_current_panic_guards_ok : panic_ok current_facts = true.
+Proof. vm_compute. reflexivity. Qed.
+
+(** the isMutation table (gas class, extra EVM events) agrees with the ABI's view / non-view split *)
+Theorem C08_current_mutation_table_ok : table_ok current_facts = true.
+Proof. vm_compute. reflexivity. Qed.
+
+(** FunToken and Wasm query methods refuse attached value *)
+Theorem C08_current_query_guards_ok : query_guards_ok current_facts = true.
+Proof. vm_compute. reflexivity. Qed.
+
+(** HandleOutOfGasPanic converts sdk.ErrorOutOfGas only; geth's STATICCALL / DELEGATECALL / CALLCODE
+    wrappers pass readOnly = true and runPrecompiledContract charges RequiredGas before Run *)
+Theorem C08_current_wrapper_facts_ok :
+  f_oog_only current_facts = true /\ f_local_meter current_facts = true /\
+  f_direct_ro current_facts = true /\ geth_charges_required_gas_first = true.
+Proof. vm_compute. repeat split; reflexivity. Qed.
+
+(** the property for the tree as it is now: every body, every input *)
+Theorem C08_holds_for_current_tree :
+  forall (St : Type) (body : mid -> list arg -> St -> Z -> bres St) (transfer : St -> Z -> St) p k value gas inp st,
+    Proofs.query_bodies_readonly St body -> input_wf inp = true -> 0 <= gas ->
+    let r := evm_call St body transfer current_facts p k value gas inp st in
+    P k value gas (selected (pc_of current_facts p) inp) (r_out r) (r_left r)
+      (r_st r = st) (r_st r = st \/ r_st r = transfer st value).
+Proof.
+  intros St body transfer p k value gas inp st QB W G.
+  exact (C08_model_satisfies_property St body transfer current_facts p k value gas inp st
+           C08_current_guards_ok C08_current_panic_guards_ok
+           (proj1 (proj2 (proj2 C08_current_wrapper_facts_ok))) QB W G).
+Qed.
+Print Assumptions C08_holds_for_current_tree.
+
+(** Status of the nested-static clause on the current tree's own facts.  Today: the left disjunct
+    (OPEN FINDING: EVM.Call of the geth fork passes readOnly = false, a state-changing method
+    succeeds below a STATICCALL frame).  Once the fork hands the flag down the same statement is
+    proved through the right disjunct, for every body and input. *)
+Theorem C08_nested_static_status_on_current_tree :
+  (f_call_inherits_static current_facts = false /\
+   exists p gas inp,
+     let r := evm_call Z Ref.sample_body Ref.sample_transfer current_facts p (KCall true) 0 gas inp 0 in
+     ~ P_nested (KCall true) (selected (pc_of current_facts p) inp) (r_out r) (r_st r = 0))
+  \/
+  (f_call_inherits_static current_facts = true /\
+   forall (St : Type) (body : mid -> list arg -> St -> Z -> bres St) (transfer : St -> Z -> St) p k gas inp st,
+     Proofs.query_bodies_readonly St body -> input_wf inp = true ->
+     let r := evm_call St body transfer current_facts p k 0 gas inp st in
+     P_nested k (selected (pc_of current_facts p) inp) (r_out r) (r_st r = st)).
+Proof.
+  first
+    [ left; split; [reflexivity|];
+      exists PFunToken, 1000000, (Ref.bankMsgSend_call Ref.unibi 5);
+      intros r H; specialize (H eq_refl); destruct H as [H _]; subst r; vm_compute in H; discriminate
+    | right; split; [reflexivity|];
+      intros St body transfer p k gas inp st QB W;
+      exact (C08_nested_static_if_inherited St body transfer current_facts p k gas inp st
+               C08_current_guards_ok C08_current_panic_guards_ok eq_refl QB W) ].
+Qed.
+Print Assumptions C08_nested_static_status_on_current_tree.
